@@ -22,6 +22,12 @@ let () = each_line (fun l ->
     (* the (A) model of the recursive downward algorithm is exponential (no caches): it is only executed on tiny pairs *)
     let small = List.length a.rules <= 4 && List.length b.rules <= 4 in
     let down_model = if small then down_incl a b (nat_of_int 10) else None in
+    (* the same algorithm with the cache of positive answers (scoped per expansion = proved exact; shared = refuted): run on pairs up to the
+       size of the coinductive-trap family; "discriminating" counts the cases on which ONE shared cache would give a wrong verdict *)
+    let per_sym = List.fold_left (fun m r -> max m (List.length (List.filter (fun r' -> r'.sym = r.sym) b.rules))) 0 b.rules in
+    let mid = List.length a.rules <= 9 && List.length b.rules <= 14 && per_sym <= 3 in
+    let cache_model = if mid then downc_incl false a b (nat_of_int 12) else None in
+    let shared_model = if mid then downc_incl true a b (nat_of_int 12) else None in
     let fails = ref [] in
     List.iteri (fun i v ->
       let ok = (match v with "0" -> gate_verdict a b false | "1" -> gate_verdict a b true | "T" -> true (* time limit: inconclusive *) | _ -> false) in
@@ -32,12 +38,14 @@ let () = each_line (fun l ->
     if not (prepared_lang a b sa sb) then fails := "sanitize_lang" :: !fails;
     if not (ta_same a ia && ta_same b ib) then fails := "operand_changed" :: !fails;
     let drift = (if prepared_shape sa sb n then [] else ["sanitize_shape"]) @ (if up_ac a b = truth then [] else ["antichain_model"])
-      @ (match down_model with Some v -> if v = truth then [] else ["down_model"] | None -> []) in
+      @ (match down_model with Some v -> if v = truth then [] else ["down_model"] | None -> [])
+      @ (match cache_model with Some v -> if v = truth then [] else ["down_cache_model"] | None -> []) in
     (if !fails = [] then "OK" else "FAIL " ^ String.concat "," (List.rev !fails))
     ^ (if drift = [] then "" else " DRIFT " ^ String.concat "," drift)
     ^ (if truth then " included" else " notincluded")
     ^ (if is_empty a then " Aempty" else " Anonempty") ^ (if is_empty b then " Bempty" else " Bnonempty")
     ^ (if List.mem "T" vs || List.mem "T" rs then " timeout" else "")
     ^ (if a.rules <> [] && a.rules = b.rules then " shared_table" else "")
+    ^ (match shared_model with Some v when v <> truth -> " discriminates_shared_cache" | _ -> "")
     ^ (if small then (match down_model with None -> " down_model_out_of_fuel" | Some _ -> " down_model_run") else "")
   | _ -> "FAIL exception " ^ o)
